@@ -649,7 +649,7 @@ pub fn run(ctx: &Ctx) -> Report {
     // (b)
     reentrancy(&mut rep);
     // (c)
-    let depth = ctx.tier.pick(5usize, 7usize);
+    let depth = ctx.tier.pick(8usize, 10usize);
     let spec = ReloadSpec { exe: ctx.exe.clone(), runs: Default::default(), dedup: true, serial: Default::default() };
     let (stats, viols) = hist::explore(&spec, depth, ctx);
     rep.set("states", stats.states);
@@ -666,7 +666,7 @@ pub fn run(ctx: &Ctx) -> Report {
         rep.violation(v.signature, format!("file history {:?}: {}", v.path, v.detail), json!({"kind": "reloader", "path": v.path.iter().map(rop_json).collect::<Vec<_>>()}));
     }
     // the same without deduplication to a smaller depth: every history is replayed
-    let full_depth = ctx.tier.pick(4usize, 5usize);
+    let full_depth = ctx.tier.pick(5usize, 6usize);
     let spec2 = ReloadSpec { exe: ctx.exe.clone(), runs: Default::default(), dedup: false, serial: Default::default() };
     let (stats2, viols2) = hist::explore(&spec2, full_depth, ctx);
     rep.set("reloader_histories_without_dedup", stats2.transitions);
